@@ -1890,3 +1890,89 @@ func ruleNoGlobalSessionData(r *Run) {
 	}
 	r.Floor("J5", "package-level variables of the repository", n, 10)
 }
+
+// ruleMembershipContracts (S-Members): the four primitives that change who is in a session and what it
+// holds do exactly that, on every path: AddParticipant stores the participant handed in under its own id and
+// touches no other member; RemoveParticipant deletes that id and nothing else; AddEntity / RemoveEntity alike
+// for the entity table; ParticipantCount is the size of the member table; EntityByID is a plain lookup of the
+// id given. Nobody else writes the two tables.
+func ruleMembershipContracts(r *Run) {
+	if r.broken() {
+		return
+	}
+	type spec struct {
+		fn, table, kind string
+	}
+	n := 0
+	for _, q := range []spec{
+		{"models.(*Session).AddParticipant", "recv.participants", "write"},
+		{"models.(*Session).RemoveParticipant", "recv.participants", "delete"},
+		{"models.(*Session).AddEntity", "recv.entities", "write"},
+		{"models.(*Session).RemoveEntity", "recv.entities", "delete"},
+	} {
+		fn := r.modelFunc(q.fn)
+		if fn == nil {
+			continue
+		}
+		paths := r.Paths(fn)
+		r.Analysed(fn, len(paths))
+		for pi := range paths {
+			path := &paths[pi]
+			r.at(path)
+			ops := r.mapOps(fn, path)
+			var own []mapOp
+			for _, op := range ops {
+				if op.Map == "recv.participants" || op.Map == "recv.entities" || strings.HasPrefix(op.Map, "recv.participants[") || strings.HasPrefix(op.Map, "recv.entities[") {
+					own = append(own, op)
+				}
+			}
+			n++
+			ok := len(own) == 1 && own[0].Kind == q.kind && own[0].Map == q.table && own[0].Key == "param:#0.ID" && !own[0].Loop
+			if ok && q.kind == "write" {
+				ok = own[0].Val == "param:#0"
+			}
+			what := "stores exactly the object handed in under its own id"
+			if q.kind == "delete" {
+				what = "removes exactly the id of the object handed in"
+			}
+			r.CheckT("S-Members", fn.Name+":exact", ok, fn.Body.Pos(), path,
+				"%s %s and touches no other entry of the session's member / entity tables (operations on this path: %d): membership decides who receives relays and who is handed to newcomers", shortFuncName(fn.Obj), what, len(own))
+		}
+	}
+	// who may write the two tables
+	allowed := map[string]map[string]bool{
+		"participants": {"models.(*Session).AddParticipant": true, "models.(*Session).RemoveParticipant": true, "models.NewSession": true},
+		"entities":     {"models.(*Session).AddEntity": true, "models.(*Session).RemoveEntity": true, "models.NewSession": true},
+	}
+	for field, who := range allowed {
+		fv := r.P.LookupField(pkgModels, "Session", field)
+		if fv == nil {
+			r.Undecide("anchors", "ruleMembershipContracts: field Session.%s not found", field)
+			continue
+		}
+		for _, fn := range r.P.All {
+			if fn.Pkg.PkgPath != pkgModels || fn.Obj == nil {
+				continue
+			}
+			if r.writesField(fn, pkgModels, "Session", field) {
+				n++
+				nm := fn.Name
+				okW := who[nm]
+				if !okW {
+					// glue that acts only for the allowed writers (a helper split off AddParticipant)
+					okW = true
+					any := false
+					for a := range r.attributed(fn) {
+						any = true
+						if !who[a] {
+							okW = false
+						}
+					}
+					okW = okW && any
+				}
+				r.Check("S-Members", "writer["+field+"]:"+nm, okW, fn.Body.Pos(), "Session.%s is written by %s; only the add / remove primitive of that table (and the constructor) may change it", field, nm)
+			}
+		}
+	}
+	r.Floor("S-Members", "paths of the membership primitives and table writers", n, 8)
+}
